@@ -73,6 +73,16 @@ FIXED = {
     "fix: a member name that reads as an absolute path once its './' marker is removed no longer escapes extraction into the current directory": (["C03"], "extractall() without a destination: a directory member named './/<absolute path>' was created at that absolute path (get_sanitized_output_path returned the marker-stripped name, not the path it had checked). Reported by a seeding sub-agent as present in the unmodified tree; the check had no './/abs' names. Names added; reproduced on the pre-fix tree"),
     "fix: a regular or empty file member replaces a link left at its output path instead of being written through it": (["C03"], "link 'a -> b/../x' (passes the lexical check while 'b' does not exist), link 'b -> .', file './a': the file was written through the link and created/truncated <parent>/x. Reported by a seeding sub-agent; the check tried every archive under one destination configuration only and its 3-entry alphabet had no second spelling of a name. Respelled alphabet added; reproduced on the pre-fix tree"),
     "fix: file times and modes are applied only to paths that still resolve inside the destination": (["C03"], "file 'b', link './b -> a/..', link 'a -> .': the post-extraction utime/chmod pass followed the link that replaced 'b' and re-timed and re-moded the parent of the destination. Reported by a seeding sub-agent; same gap in the check as above; reproduced on the pre-fix tree"),
+    "fix: close() waits until the progress reporter has delivered every queued event": (["C18"], "close() joined the reporter for one second and raised InternalError: a handler blocking 20-60 ms per event on a 6..60-member archive made a successful extraction fail in close(), with events delivered after close() had returned. The check's handlers blocked 0-3 ms only. Reported by a bug-hunting sub-agent working on the unmodified tree with only the property text; reproduced by me; the check was widened until it reports the defect on the pre-fix tree."),
+    "fix: a second extraction with a callback on the same object no longer shares the event queue with the first reporter": (["C18"], "extractall(cb1); reset(); extractall(cb2): two reporter threads drained one queue, events of the second extraction were split at random between the callbacks, close() ended one thread only. The check ran one extraction per object. Reported by a bug-hunting sub-agent working on the unmodified tree with only the property text; reproduced by me; the check was widened until it reports the defect on the pre-fix tree."),
+    "fix: an extraction without a callback queues no progress events": (["C18"], "'pre'/'post' were queued unconditionally; the next extraction with a callback on that object reported pre, post, pre, ... or a stray pre, post after its own post. Reported by a bug-hunting sub-agent working on the unmodified tree with only the property text; reproduced by me; the check was widened until it reports the defect on the pre-fix tree."),
+    "fix: progress events of mp=True extraction reach the callback": (["C18", "C13"], "mp=True: the child processes put their events into their own copies of the in-process queue; the callback saw only pre and post. Reported by a bug-hunting sub-agent working on the unmodified tree with only the property text; reproduced by me; the check was widened until it reports the defect on the pre-fix tree."),
+    "fix: recursive extraction selects members beneath a named directory, not every name that starts with the same characters": (["C09"], "recursive=True matched targets with a bare startswith(): absent names 'al', 'dir/be', '' selected 'alpha.txt', 'dir/beta.txt', everything. The check's absent names shared no leading characters with members. Reported by a bug-hunting sub-agent working on the unmodified tree with only the property text; reproduced by me; the check was widened until it reports the defect on the pre-fix tree."),
+    "fix: a member stored with a trailing slash can be selected by name": (["C09"], "directories stored as 'name/' (other writers) could not be selected: the slash was stripped from the target only. Reported by a bug-hunting sub-agent working on the unmodified tree with only the property text; reproduced by me; the check was widened until it reports the defect on the pre-fix tree."),
+    "fix: extract(targets, recursive=None) applies the target filter": (["C09"], "recursive=None (advertised Optional[bool]) disabled the filter: every member extracted even for an empty target list. Reported by a bug-hunting sub-agent working on the unmodified tree with only the property text; reproduced by me; the check was widened until it reports the defect on the pre-fix tree."),
+    "fix: extraction into a writer factory creates no directory on disk": (["C09"], "extract(path=P, targets=T, factory=F) created P on disk. Reported by a bug-hunting sub-agent working on the unmodified tree with only the property text; reproduced by me; the check was widened until it reports the defect on the pre-fix tree."),
+    "fix: member names are judged with the backslash as a separator, as every reader takes it": (["C16"], "writestr/writef accepted '\\\\etc\\\\passwd' and '..\\\\..\\\\x' (read back as '/etc/passwd', '../../x'); write()/writeall() stored files named '\\\\abs.txt', 'c:\\\\win.txt' so that they read back as '/abs.txt', '/win.txt'. The check's alphabet had no backslash. Reported by a bug-hunting sub-agent working on the unmodified tree with only the property text; reproduced by me; the check was widened until it reports the defect on the pre-fix tree."),
+    "fix: names that the name table cannot hold are refused when the member is added": (["C16", "C15"], "names with NUL or >= 65536 UTF-16 units were accepted and read back as two members, the second absolute; a lone surrogate (undecodable file name) was accepted and made close() fail before any header was written, losing the session. Reported by a bug-hunting sub-agent working on the unmodified tree with only the property text; reproduced by me; the check was widened until it reports the defect on the pre-fix tree."),
     "fix: every extracted entry is checked against the links already on disk, not only link targets": (["C03"], "dangling link 'b -> a/..' followed by 'a -> .' made a later member 'a/b/c' land outside the destination (found by the thorough tier's random 4-entry archives)"),
     "fix: test() stops reading at the end of the file": (["C05"], "test() iterated (declared pack size / block size) times over an exhausted file"),
     "fix: reject a file count the header cannot possibly describe": (["C05"], "41-byte archive declaring 2^31 files allocated one record per declared file"),
